@@ -47,7 +47,7 @@ def _spec(module):
             'rules': [lambda units, R: bnd3._run(units['cJSON.c'], names3, R, 0)],
         }]
     if module == 'tree':
-        from . import tree, shape, cmpfold, numcls
+        from . import tree, shape, cmpfold, numcls, parse
         return [{
             'units': {'cJSON.c': 'tree_bad.c', 'cJSON_Utils.c': 'utils_min.c'},
             'rules': [tree.tab3, tree.tab14, lambda units, R: tree.tab14(units, R, 'good_dup_clone'),
@@ -57,7 +57,7 @@ def _spec(module):
                           ('cJSON.c', 'bad_SHP1_detach', lambda u, f: shape._cases_detach_ptr(u, f, stray_case=False), 'remove the given element'),
                           ('cJSON.c', 'good_unlink', lambda u, f: shape._cases_detach_ptr(u, f, stray_case=False), 'remove the given element')]),
                       lambda units, R: shape.shp3(units, R, names=('bad_SHP3_item_at', 'good_item_at', 'bad_SHP3_last_member', 'good_first_member')),
-                      shape.shp5,
+                      shape.shp5, lambda units, R: parse.tab1_bound(units, R, 'bad_TAB24_dup', 1), lambda units, R: parse.tab1_bound(units, R, 'good_dup_bound', 1),
                       lambda units, R: shape.shp4(units, R, 'bad_SHP4_dup_strings_only'), lambda units, R: shape.shp4(units, R, 'good_dup_every_kind'),
                       lambda units, R: numcls.num4(units, R, unit_names=('cJSON.c',), fn_name='bad_NUM4_relative'),
                       lambda units, R: numcls.num4(units, R, unit_names=('cJSON.c',), fn_name='good_relative')],
